@@ -175,22 +175,3 @@ def Signal.pixels : Signal → List Pt
   | .grid rows => rows.flatten
 
 end Darsia.Kern
-
-namespace Darsia.Kern
-
-/-- an op as the object experiences it: `update` restores every attribute when it raises, so a failing op
-leaves the state as it was (after the `fix:` commit); the flag tells whether it raised -/
-def stepS (st : KState) (op : KOp) : KState × Option Err :=
-  match step st op with
-  | .ok st' => (st', none)
-  | .error e => (st, some e)
-
-/-- run all ops, continuing after failures; returns the final state and the positions/classes of the failures -/
-def runS (st : KState) : List KOp → Nat → KState × List (Nat × Err)
-  | [], _ => (st, [])
-  | op :: ops, i =>
-    let r := stepS st op
-    let rest := runS r.1 ops (i + 1)
-    (rest.1, match r.2 with | some e => (i, e) :: rest.2 | none => rest.2)
-
-end Darsia.Kern
